@@ -114,7 +114,7 @@ class SkipArms(PassSpec):
         def idiom(inner, any_node=None):
             return gx.Repeat(gx.Group(gx.Sequence(gx.NegativePredicate(inner), any_node or AnyRule())))
 
-        rules = {"lit": GrammarRule("lit", S("q"), 0), "alts": GrammarRule("alts", gx.Choice(S("x"), S("yz")), 2), "rng": GrammarRule("rng", gx.Range("a", "b"), 0)}
+        rules = {"lit": GrammarRule("lit", S("q"), 0), "alts": GrammarRule("alts", gx.Choice(S("x"), S("yz")), 2), "rng": GrammarRule("rng", gx.Range("a", "b"), 0), "su": GrammarRule("su", gx.SkipUntil(["z"]), 4)}
         fires = [
             ("string", idiom(S("a")), ("a",)),
             ("choice", idiom(gx.Choice(S("b"), S("ab"))), ("b", "ab")),
@@ -122,7 +122,6 @@ class SkipArms(PassSpec):
             ("ident", idiom(gx.Identifier("lit")), ("q",)),
             ("ident.choice", idiom(gx.Identifier("alts")), ("x", "yz")),
             ("any.ident", idiom(S("a"), gx.Identifier("ANY")), ("a",)),
-            ("nested.skipuntil", idiom(gx.Choice(gx.SkipUntil(["m"]), S("n"))), ("m", "n")),
             ("rule.inner", idiom(GrammarRule("r", gx.Choice(S("u"), S("v")), 0)), ("u", "v")),
             ("order", idiom(gx.Choice(S("\r\n"), S("\n"), S("\r"))), ("\r\n", "\n", "\r")),
             # a tag on the group is unobservable here: nothing inside the idiom can produce a pair to carry it
@@ -142,6 +141,9 @@ class SkipArms(PassSpec):
             ("pospred", gx.Repeat(gx.Group(gx.Sequence(gx.PositivePredicate(S("a")), AnyRule())))),
             ("not.any", gx.Repeat(gx.Group(gx.Sequence(gx.NegativePredicate(S("a")), S("x"))))),
             ("once", gx.RepeatOnce(gx.Group(gx.Sequence(gx.NegativePredicate(S("a")), AnyRule())))),
+            # !SkipUntil(..) never succeeds (SkipUntil always matches): the idiom then matches nothing - not a search
+            ("nested.skipuntil", idiom(gx.Choice(gx.SkipUntil(["m"]), S("n")))),
+            ("nested.skipuntil.ident", idiom(gx.Identifier("su"))),
             ("plain", S("a")),
         ]
         for name, node in no_fire:
@@ -318,7 +320,8 @@ class SquashArms(PassSpec):
                 ok, why = False, "extra alternatives in the pattern"
             run.oblige(f"{name}.order", ok, note=f"{pat!r}: {why}")
         # not squashable: left alone
-        for name, alts in (("with.sequence", [S("a"), gx.Sequence(S("b"), S("c"))]), ("with.ident", [S("a"), gx.Identifier("x")])):
+        for name, alts in (("with.sequence", [S("a"), gx.Sequence(S("b"), S("c"))]), ("with.ident", [S("a"), gx.Identifier("x")]),
+                           ("nested.unsquashable", [gx.Choice(S("x"), gx.Identifier("y")), S("c")]), ("nested.unsquashable.last", [S("c"), gx.Choice(S("x"), gx.Sequence(S("p"), S("q")))])):
             before = gx.Choice(*alts)
             run.oblige(f"identity.{name}", squash_choice(before, {}) is before)
         run.oblige("identity.nonchoice", squash_choice(S("a"), {}) is not None and type(squash_choice(S("a"), {})).__name__ == "String")
